@@ -310,11 +310,14 @@ func (store ItemVarStore) GetDelta(index VariationStoreIndex, coords []Coord) fl
 // Evaluate returns the scalar factor of the region
 func (vr VariationRegion) Evaluate(coords []Coord) float32 {
 	v := float32(1)
-	for axis, coord := range coords {
-		if axis >= len(vr.RegionAxes) { // invalid font: the store has less axes than 'fvar'
-			break
+	for axis, regionAxis := range vr.RegionAxes {
+		// a missing coordinate is at the default position of its axis:
+		// without coordinates, a region with a non zero peak does not contribute
+		var coord Coord
+		if axis < len(coords) {
+			coord = coords[axis]
 		}
-		factor := vr.RegionAxes[axis].evaluate(coord)
+		factor := regionAxis.evaluate(coord)
 		v *= factor
 	}
 	return v
